@@ -26,6 +26,11 @@ func c06Cases() []c06Case {
 	d := map[string]any{"name": "NAME", "other": "OTHER", "items": []any{"a", "b", "c"}, "n": 7,
 		"rows": []any{map[string]any{"t": "first", "note": "S"}, map[string]any{"t": "second"}, map[string]any{"t": "third", "note": "ok"}, map[string]any{"t": "fourth", "note": nil}}}
 	cases := []c06Case{
+		// content WAS supplied, and renders nothing for this data: the slot stays empty — the fallback is for slots nothing was supplied for
+		{"supplied-renders-nothing-vif", map[string]string{"p.vuego": `<template include="c.vuego"><b v-if="nope">X</b></template>`, "c.vuego": `<div>[<slot>FB</slot>]</div>`}, d, "[]"},
+		{"supplied-renders-nothing-vfor", map[string]string{"p.vuego": `<template include="c.vuego"><b v-for="q in none">X</b></template>`, "c.vuego": `<div>[<slot>FB</slot>]</div>`}, d, "[]"},
+		{"supplied-renders-nothing-named", map[string]string{"p.vuego": `<template include="c.vuego"><template #head><b v-if="nope">X</b></template><i>D</i></template>`, "c.vuego": c06Comp}, d, "D"},
+		{"supplied-renders-nothing-per-instance", map[string]string{"p.vuego": `<div v-for="it in items"><template include="c.vuego"><b v-if="it == 'b'">{{ it }}</b></template></div>`, "c.vuego": `<p>[<slot>FB</slot>]</p>`}, d, "[][b][]"},
 		// every use of a scoped slot passes ITS OWN props: a prop that is absent or nil in a later use is absent there, whatever an earlier use passed
 		{"scoped-props-per-use-var", map[string]string{"p.vuego": `<template include="c.vuego"><template #row="p">[{{ p.item }}|{{ p.note }}]</template></template>`,
 			"c.vuego": `<ul><li v-for="r in rows"><slot name="row" :item="r.t" :note="r.note"></slot></li></ul>`}, d, "[first|S][second|][third|ok][fourth|]"},
